@@ -1,15 +1,17 @@
 """C04 Pipeline terminates under every schedule and input (no deadlock, lost wake-up)."""
-from .common import pipeline_for
+from .common import pipeline_for, combined
 
 LEVEL = 'other'
-RULES = ('M1', 'M2', 'M3', 'M4', 'M5', 'R01.b', 'R01.c', 'R04.a', 'R04.b', 'R04.c', 'R04.d', 'R04.e', 'S-OWN', 'R03.d')
+RULES = ('M1', 'M2', 'M3', 'M4', 'M5', 'R01.b', 'R01.c', 'R04.a', 'R04.b', 'R04.c', 'R04.d', 'R04.e', 'S-OWN', 'R03.d', 'R04.f', 'R15.b', 'R14.t')
 
 
 def run(prog, rec, tier):
-    pipeline_for(prog, rec, tier, RULES, monitor=True, spawn=True,
+    combined(prog, rec, tier, RULES, driver=('singleton', 'sequence'), pipe=True, monitor=True, spawn=True,
                  explanation='Monitor discipline on the token class (writes under the mutex, waits in re-testing loops with computed '
                  'leave sets, notify_all on the matching condition variable before the mutex is released, leave sets reachable), '
                  'no READY buffer without blocks (end-of-body table over the remaining-length partition), worker exits only on INV, '
                  'every started thread joined for T=1..16, I/O loop exits only with live counter 0, live counter tied to INV, '
-                 'no load after the input ended. Liveness under fairness itself is not decided.')
+                 'no load after the input ended; no loop of either role can spin on a recurring state (a failing read included); the counter '
+                 'the I/O loop waits on is 0 and the loop state is re-established when a further operation starts in the same process. '
+                 'Liveness under fairness itself is not decided.')
     rec.assume('std::condition_variable: a notify_all issued while the waiter holds or waits on the same mutex is not lost')
